@@ -17,9 +17,11 @@ theorem polygon_delta_sign (arc : Rat) (grp : Group) (st : St)
     (hp : grp.et = .polygon) (hl : grp.lowest.isSome = true) :
     (groupSetup arc grp st).groupDelta = (if grp.isReversed then -st.delta else st.delta)
       ∧ (groupSetup arc grp st).delta = st.delta := by
-  cases h : grp.lowest with
-  | none => rw [h] at hl; cases hl
-  | some i => simp [groupSetup, hp, h]
+  simp [groupSetup, hp, hl]
+
+/-- No group ever writes `delta_` (a Polygon group without points uses `|delta_|` locally). -/
+theorem groupSetup_keeps_delta (arc : Rat) (grp : Group) (st : St) :
+    (groupSetup arc grp st).delta = st.delta := rfl
 
 /-- `is_reversed` is exactly "the lowest path (largest y, then smallest x) has negative area". -/
 theorem mkGroup_isReversed_iff (paths : Paths) (jt : JoinType) :
@@ -35,16 +37,16 @@ theorem mkGroup_isReversed_iff (paths : Paths) (jt : JoinType) :
 example : (mkGroup [[⟨0, 0⟩, ⟨0, 10⟩, ⟨10, 10⟩, ⟨10, 0⟩]] .miter .polygon).isReversed = true := by decide
 example : (mkGroup [[⟨0, 0⟩, ⟨10, 0⟩, ⟨10, 10⟩, ⟨0, 10⟩]] .miter .polygon).isReversed = false := by decide
 
-/-- The clean-up union keeps the orientation convention of the input: when the first polygon group is
-reversed it runs with `FillRule::Negative` and `ReverseSolution(reverse_solution_ != true)`, otherwise with
+/-- The clean-up union keeps the orientation convention of the input: when the first polygon group (with at
+least one point) is reversed it runs with `FillRule::Negative` and `ReverseSolution(reverse_solution_ != true)`, otherwise with
 `Positive` and `ReverseSolution(reverse_solution_)`. -/
 theorem polygon_union_orientation (g : Geo N) (prm : Params) (grp : Group) (rest : List Group) (delta : Rat)
-    (f : Frame N) (hp : grp.et = .polygon)
+    (f : Frame N) (hp : grp.et = .polygon) (hl : grp.lowest.isSome = true)
     (h : executeInternal g prm (grp :: rest) delta = .ok (some f)) :
     f.fill = (if grp.isReversed then FillRule.negative else FillRule.positive)
       ∧ f.reverse = (prm.reverseSolution != grp.isReversed)
       ∧ f.preserveCollinear = prm.preserveCollinear := by
-  simp only [executeInternal, List.isEmpty_cons, Bool.false_eq_true, if_false, checkReverseOrientation, hp, if_true] at h
+  simp only [executeInternal, List.isEmpty_cons, Bool.false_eq_true, if_false, checkReverseOrientation, hp, hl, and_self, if_true] at h
   split at h
   · split at h
     · cases h
@@ -55,15 +57,21 @@ theorem polygon_union_orientation (g : Geo N) (prm : Params) (grp : Group) (rest
       · injection h with h; injection h with h; subst h; exact ⟨rfl, rfl, rfl⟩
       · injection h with h; cases h
 
-/-- `|delta| < 0.5`: nothing is offset; the union receives the (duplicate-stripped) input paths of all groups. -/
+/-- `|delta| < 0.5`: nothing is offset; the union receives the (duplicate-stripped) input paths of the
+Polygon groups, and nothing from groups with an open end type. -/
 theorem small_delta_identity (g : Geo N) (prm : Params) (groups : List Group) (delta : Rat)
     (hg : groups.isEmpty = false) (hd : rabs delta < 1 / 2) :
     executeInternal g prm groups delta =
-      .ok (if (groups.flatMap (·.paths)).isEmpty then none else
-        some ⟨.copied (groups.flatMap (·.paths)),
+      .ok (if ((groups.filter (fun grp => grp.et = .polygon)).flatMap (·.paths)).isEmpty then none else
+        some ⟨.copied ((groups.filter (fun grp => grp.et = .polygon)).flatMap (·.paths)),
           if checkReverseOrientation groups then FillRule.negative else FillRule.positive,
           prm.reverseSolution != checkReverseOrientation groups, prm.preserveCollinear, none⟩) := by
   simp [executeInternal, hg, hd]
+
+/-- in particular, when every group is a Polygon group, all stripped input paths pass through unchanged -/
+theorem small_delta_identity_polygons (groups : List Group) (h : ∀ grp ∈ groups, grp.et = .polygon) :
+    (groups.filter (fun grp => grp.et = .polygon)).flatMap (·.paths) = groups.flatMap (·.paths) := by
+  rw [List.filter_eq_self.mpr (by simpa using h)]
 
 example : rabs ((1 : Rat) / 4) < 1 / 2 := by decide +kernel
 
